@@ -222,6 +222,8 @@ func v12Aspects() []v12Aspect {
 	}
 	dnssl := []func() []ndp.Option{
 		func() []ndp.Option { return nil },
+		// the same name in another case: other bytes on the wire, a different search list
+		func() []ndp.Option { return []ndp.Option{v12SL(v12S(10), strings.ToUpper(v12N1[:3])+v12N1[3:])} },
 		func() []ndp.Option { return []ndp.Option{v12SL(v12S(10), v12N1)} },
 		func() []ndp.Option { return []ndp.Option{v12SL(v12S(20), v12N1)} },
 		func() []ndp.Option { return []ndp.Option{v12SL(v12S(10), v12N2)} },
@@ -432,6 +434,8 @@ func v12ViaHandle(cfg config.Interface, theirs *ndp.RouterAdvertisement, times i
 	mem := metricslite.NewMemory()
 	mm := NewMetrics(mem, "verif", time.Time{}, state, nil)
 	cctx := NewContext(log.New(&buf, "", 0), mm, state)
+	v12HarnessSeq++
+	cfg.Verbose = v12HarnessSeq%2 == 0 // every other advertiser is verbose: more is logged, the same is reported
 	a := NewAdvertiser(cctx, cfg, nil, nil, func() bool { return true })
 	hooks := 0
 	a.OnInconsistentRA = func(o, _ *ndp.RouterAdvertisement) { hooks++; ours = o }
@@ -456,7 +460,10 @@ func v12ViaHandle(cfg config.Interface, theirs *ndp.RouterAdvertisement, times i
 			return o, nil, err
 		}
 	}
-	before, lines0, hooks0 := v12Samples(mem), bytes.Count(buf.Bytes(), []byte("\n")), hooks
+	// log lines of the consistency check only (the summary line and one per problem): in verbose mode the advertiser
+	// also logs every message it receives
+	countLines := func() int { return bytes.Count(buf.Bytes(), []byte("inconsisten")) }
+	before, lines0, hooks0 := v12Samples(mem), countLines(), hooks
 	off0 := buf.Len()
 	snapshot := verifh.DeepDump(cfg) // the own RA may share memory with the configuration's plugins
 	dst, err := a.handle(theirs, host)
@@ -471,7 +478,7 @@ func v12ViaHandle(cfg config.Interface, theirs *ndp.RouterAdvertisement, times i
 	}
 	after := v12Samples(mem)
 	o.hook = hooks - hooks0
-	o.logged = bytes.Count(buf.Bytes(), []byte("\n")) - lines0
+	o.logged = countLines() - lines0
 	o.labelsOK = true
 	keys := make([]string, 0, len(after))
 	for k := range after {
@@ -689,6 +696,34 @@ func TestVerifC12(t *testing.T) {
 		peer := v12Build(r, as, it, pextra, r.Chance(50), r.Intn(4))
 		e.pair(id, r, ours, peer, []string{"stream:rnd"}, c%4 == 0)
 	}
+	// big RAs (14 options in no particular order, two RDNSS and two DNSSL options with different contents) against
+	// themselves and against a copy with one lifetime changed: whatever a verbose advertiser does with a received
+	// message before it compares it, the comparison sees the options in the order they were sent
+	for c := 0; c < 6; c++ {
+		id := fmt.Sprintf("c12-big-%d", c)
+		r := verifh.NewRand(verifh.Seed(), id)
+		mk := func() *ndp.RouterAdvertisement {
+			ra := &ndp.RouterAdvertisement{CurrentHopLimit: 64, RouterLifetime: 1800 * time.Second}
+			for k := 0; k < 6; k++ {
+				ra.Options = append(ra.Options, &ndp.PrefixInformation{PrefixLength: 64, Prefix: netip.MustParseAddr(fmt.Sprintf("2001:db8:%x::", 0x10+k)),
+					OnLink: true, AutonomousAddressConfiguration: true, ValidLifetime: v12S(100), PreferredLifetime: v12S(50)})
+			}
+			ra.Options = append(ra.Options,
+				v12DNS(v12S(10), v12S3), v12SL(v12S(10), v12N1),
+				&ndp.RouteInformation{PrefixLength: 48, Prefix: netip.MustParseAddr("2001:db8:f1::"), RouteLifetime: v12S(100)},
+				v12DNS(v12S(20), v12S1), ndp.NewMTU(1500),
+				&ndp.RouteInformation{PrefixLength: 48, Prefix: netip.MustParseAddr("2001:db8:f2::"), RouteLifetime: v12S(100)},
+				v12SL(v12S(20), v12N2), &ndp.CaptivePortal{URI: v12U2})
+			// rotate: different arrival orders
+			ra.Options = append(ra.Options[c*2:], ra.Options[:c*2]...)
+			return ra
+		}
+		ours, peer := mk(), mk()
+		if c%2 == 1 {
+			peer.Options[0], peer.Options[1] = peer.Options[1], peer.Options[0]
+		}
+		e.pair(id, r, ours, peer, []string{"stream:big"}, true)
+	}
 
 	// ---- cfg: CoreRAD's own RA from a parsed configuration, against its own wire image
 	n = 150
@@ -769,7 +804,13 @@ type v12Harness struct {
 	hookOurs *ndp.RouterAdvertisement
 }
 
+var v12HarnessSeq int
+
 func newV12Harness(cfg config.Interface, state system.State) *v12Harness {
+	// every other harness runs the interface in verbose mode: what is logged besides the report is nobody's business,
+	// what is reported is the same
+	v12HarnessSeq++
+	cfg.Verbose = v12HarnessSeq%2 == 0
 	h := &v12Harness{cfg: cfg, mem: metricslite.NewMemory()}
 	mm := NewMetrics(h.mem, "verif", time.Time{}, state, nil)
 	cctx := NewContext(log.New(&h.buf, "", 0), mm, state)
